@@ -106,6 +106,12 @@ def eval_print(P):
                     while k < len(s_) and s_[k] not in rej:
                         k += 1
                     return k
+                if nm == 'strspn':
+                    s_, acc = cstring(it.ev(e[2][0]), it), cstring(it.ev(e[2][1]), it)
+                    k = 0
+                    while k < len(s_) and s_[k] in acc:
+                        k += 1
+                    return k
                 if nm in ('memcpy', 'strncpy', 'memmove'):
                     d, s_, n = it.ev(e[2][0]), it.ev(e[2][1]), it.ev(e[2][2])
                     if not (isinstance(d, tuple) and d[0] == 'ep' and isinstance(s_, tuple) and s_[0] == 'ep'):
@@ -230,7 +236,7 @@ def eval_print(P):
 # the reader: scan_from_with
 
 SCAN_FORMATS = ['%f%li', '%e all', '%i%lf', '%d label', '%u%lu', '', 'abc', '%%', 'a%%b', '%i', 'x%iy', '%d', '%li', '%ld%s', '%$', '%lld!', '%c%p', '%s%%%d', '%i%i', '%u tail', 'head %X', '%e%g', '%lf%le', '%f',
-                '%o%lx', '100%% of %i', '%lu%u']
+                '%o%lx', '100%% of %i', '%lu%u', '%i %c', '%d  %s', ' %d', '%c\t%c ']
 SCAN_LETTERS = 'diuoxXfFeEgGaAcsp$'
 
 
@@ -326,6 +332,12 @@ def eval_scan(P):
                     s_, rej = cstring(it.ev(e[2][0]), it), cstring(it.ev(e[2][1]), it)
                     k = 0
                     while k < len(s_) and s_[k] not in rej:
+                        k += 1
+                    return k
+                if nm == 'strspn':
+                    s_, acc = cstring(it.ev(e[2][0]), it), cstring(it.ev(e[2][1]), it)
+                    k = 0
+                    while k < len(s_) and s_[k] in acc:
                         k += 1
                     return k
                 if nm in ('memcpy', 'strncpy', 'memmove'):
